@@ -27,6 +27,8 @@ typedef struct vf_thread_s {
   int          state;
   int          joined;
   int          prio;         /* PCT */
+  uint64_t     npoints;      /* points executed by this thread (script policy) */
+  uint64_t     ncas;         /* weak CAS executed by this thread (script policy) */
   uint64_t     rng;
   vf_thread_fn fn;
   void*        arg;
@@ -47,6 +49,12 @@ static uint64_t g_points, g_switches, g_forced, g_spurious, g_delays, g_hash = 1
 static int      g_budget_exceeded = 0;
 static uint64_t g_pct_change[8];
 static int      g_pct_next_low = -1;
+/* script policy */
+typedef struct { int victim; uint64_t k; int target; int spurious; int fired; } script_ent;
+#define VF_MAX_SCRIPT 16
+static script_ent g_script[VF_MAX_SCRIPT];
+static int        g_nscript = 0, g_script_fired = 0;
+static int        g_lifo[VF_MAX_SCRIPT * 4]; static int g_nlifo = 0;
 
 /* per function table keyed by the address of the __func__ string */
 #define FT_SIZE 1024
@@ -106,7 +114,35 @@ void vf_sched_init(const vf_sched_cfg_t* cfg) {
     uint64_t est = (g_cfg.pct_steps ? g_cfg.pct_steps : 100000);
     for (int i = 0; i < g_cfg.pct_depth; i++) g_pct_change[i] = xs64(&s) % est;
   }
+  g_nscript = 0;
+  if (g_cfg.policy == VF_POL_SCRIPT && g_cfg.script != NULL) {
+    const char* c = g_cfg.script;
+    while (*c && g_nscript < VF_MAX_SCRIPT) {
+      char* e = NULL;
+      long v = strtol(c, &e, 10); if (e == c || *e != ':') break; c = e + 1;
+      long k = strtol(c, &e, 10); if (e == c || *e != ':') break; c = e + 1;
+      script_ent se; memset(&se, 0, sizeof(se)); se.victim = (int)v; se.k = (uint64_t)k;
+      if (*c == 's') { se.spurious = 1; se.target = -1; c++; }
+      else { long t = strtol(c, &e, 10); if (e == c) break; c = e; se.target = (int)t; }
+      g_script[g_nscript++] = se;
+      if (*c == ',') c++;
+    }
+  }
   vf_mode = g_cfg.mode;
+}
+
+/* script policy: who continues when `self` finishes or waits (caller holds g_mu) */
+static vf_thread_t* pick_script_next(vf_thread_t* self) {
+  while (g_nlifo > 0) {
+    vf_thread_t* t = g_threads[g_lifo[--g_nlifo]];
+    if (t != self && t->state == T_RUNNABLE) return t;
+  }
+  int start = (self != NULL ? self->index + 1 : 0);
+  for (int i = 0; i < g_nthreads; i++) {
+    vf_thread_t* t = g_threads[(start + i) % g_nthreads];
+    if (t != self && t->state == T_RUNNABLE) return t;
+  }
+  return NULL;
 }
 
 /* pick the next thread to run (caller holds g_mu); returns NULL if no other runnable thread */
@@ -128,7 +164,7 @@ static vf_thread_t* pick_other(vf_thread_t* self, uint64_t r) {
 static void hand_over(vf_thread_t* self, vf_thread_t* next, ft_ent* fe, int forced) {
   g_switches++; if (forced) g_forced++;
   if (fe) fe->switches++;
-  g_hash = (g_hash ^ (uint64_t)((uint32_t)next->index * 2654435761u + (fe ? fe->nhash : 0))) * 1099511628211ull;
+  g_hash = (g_hash ^ (uint64_t)((uint32_t)next->index * 2654435761u + (fe ? fe->nhash : 0)) ^ ((self ? self->npoints : 0) << 32)) * 1099511628211ull;
   sem_post(&next->sem);
   if (self != NULL) {
     while (sem_wait(&self->sem) != 0) { /* EINTR */ }
@@ -152,6 +188,29 @@ static void baton_point(const char* func, int force) {
     return;
   }
   uint64_t r = xs64(&self->rng);
+  self->npoints++;
+  if (g_cfg.policy == VF_POL_SCRIPT) {
+    vf_thread_t* next = NULL;
+    pthread_mutex_lock(&g_mu);
+    if (force) next = pick_script_next(self);
+    else {
+      for (int i = 0; i < g_nscript; i++) {
+        script_ent* se = &g_script[i];
+        if (se->spurious || se->fired || se->victim != self->index || se->k != self->npoints) continue;
+        se->fired = 1;
+        if (se->target >= 0 && se->target < g_nthreads && g_threads[se->target] != self && g_threads[se->target]->state == T_RUNNABLE) {
+          next = g_threads[se->target];
+          if (g_nlifo < (int)(sizeof(g_lifo) / sizeof(g_lifo[0]))) g_lifo[g_nlifo++] = self->index;
+          g_script_fired++;
+        }
+        break;
+      }
+    }
+    pthread_mutex_unlock(&g_mu);
+    if (next == NULL) { if (force) sched_yield(); return; }
+    hand_over(self, next, fe, force);
+    return;
+  }
   if (g_cfg.policy == VF_POL_PCT) {
     // PCT: always run the highest priority runnable thread; at the d change points (and when a thread says it is waiting) its priority drops below all others
     for (int i = 0; i < g_cfg.pct_depth; i++) { if (g_pct_change[i] == step) self->prio = g_pct_next_low--; }
@@ -206,6 +265,16 @@ void vf_lock_contended_slow(const char* func) { vf_yield_slow(func); }
 
 int vf_spurious_slow(const char* func) {
   (void)func;
+  if (g_cfg.policy == VF_POL_SCRIPT && vf_mode == VF_MODE_BATON) {
+    vf_thread_t* self = t_self;
+    if (self == NULL || g_free_run) return 0;
+    self->ncas++;
+    for (int i = 0; i < g_nscript; i++) {
+      script_ent* se = &g_script[i];
+      if (se->spurious && !se->fired && se->victim == self->index && se->k == self->ncas) { se->fired = 1; g_script_fired++; g_spurious++; return 1; }
+    }
+    return 0;
+  }
   unsigned den = g_cfg.p_spurious_den;
   if (den == 0) return 0;
   if (vf_mode == VF_MODE_BATON && (t_self == NULL || g_free_run)) return 0;
@@ -228,7 +297,7 @@ static void* trampoline(void* p) {
   if (g_cfg.mode == VF_MODE_BATON) {
     pthread_mutex_lock(&g_mu);
     t->state = T_DONE;
-    vf_thread_t* next = (g_free_run ? NULL : pick_other(t, xs64(&t->rng)));
+    vf_thread_t* next = (g_free_run ? NULL : (g_cfg.policy == VF_POL_SCRIPT ? pick_script_next(t) : pick_other(t, xs64(&t->rng))));
     pthread_mutex_unlock(&g_mu);
     t_self = NULL;
     if (next != NULL) hand_over(NULL, next, NULL, 1);
@@ -262,7 +331,7 @@ void vf_run_all(void) {
   if (g_cfg.mode == VF_MODE_BATON && !g_started) {
     g_started = 1;
     pthread_mutex_lock(&g_mu);
-    vf_thread_t* first = pick_other(NULL, mix64(g_cfg.seed));
+    vf_thread_t* first = (g_cfg.policy == VF_POL_SCRIPT ? pick_script_next(NULL) : pick_other(NULL, mix64(g_cfg.seed)));
     pthread_mutex_unlock(&g_mu);
     if (first != NULL) hand_over(NULL, first, NULL, 0);
   }
@@ -281,8 +350,10 @@ void vf_run_all(void) {
 void vf_sched_get_stats(vf_sched_stats_t* out) {
   out->points = __atomic_load_n(&g_points, __ATOMIC_RELAXED); out->switches = __atomic_load_n(&g_switches, __ATOMIC_RELAXED); out->forced_switches = __atomic_load_n(&g_forced, __ATOMIC_RELAXED);
   out->spurious = __atomic_load_n(&g_spurious, __ATOMIC_RELAXED); out->delays = __atomic_load_n(&g_delays, __ATOMIC_RELAXED); out->sched_hash = __atomic_load_n(&g_hash, __ATOMIC_RELAXED);
-  out->budget_exceeded = g_budget_exceeded; out->threads_created = g_nthreads;
+  out->budget_exceeded = g_budget_exceeded; out->threads_created = g_nthreads; out->script_fired = g_script_fired;
 }
+long vf_thread_points(int index) { return (index >= 0 && index < g_nthreads ? (long)g_threads[index]->npoints : -1); }
+long vf_thread_cas_count(int index) { return (index >= 0 && index < g_nthreads ? (long)g_threads[index]->ncas : -1); }
 
 void vf_sched_dump_funcs(FILE* f, int max_entries) {
   /* selection of the busiest by switches then points */
